@@ -146,7 +146,27 @@ func VerifH_C16_slice_write() {
 	vm.Set("x", x)
 	idx := verifChoose(6) // 3 is one past the end (append), 4 and 5 leave a gap
 	vm.Set("i", idx)
-	switch verifChoose(4) {
+	switch verifChoose(5) {
+	case 4: // delete: a non-index name is an ordinary property; an element is zeroed or the delete refused
+		sl := []float64{1, 2, 3}
+		vm.Set("sl", sl)
+		arr := [2]int16{7, 8}
+		vm.Set("ar", arr)
+		var v Value
+		var err error
+		kind, _ := verifCatch(func() {
+			v, err = vm.Run("sl.tag = x; [delete sl.tag, 'tag' in sl, delete sl.nope, delete ar.nope, delete sl[i], sl.length, delete sl.length, delete ar[0]].join()")
+		})
+		verifCover("reached")
+		verifAssert(kind == verifNormal && err == nil, "delete on a bridged slice / array returns: no Go panic, no unbounded recursion")
+		if kind == verifNormal && err == nil {
+			elem := "false"
+			if idx < 3 {
+				elem = "true"
+			}
+			verifAssert(v.String() == "true,false,true,true,"+elem+",3,false,false" || v.String() == "true,false,true,true,"+elem+",3,false,true", "delete: ordinary properties go, elements are zeroed in place (length unchanged), length stays")
+		}
+		return
 	case 3: // assigning the length: any double below 6 (growth is bounded to keep allocations small)
 		sl := []float64{1, 2, 3}
 		vm.Set("sl", sl)
@@ -257,9 +277,11 @@ func VerifH_C16_map_keys() {
 			isKey = false
 		}
 	}
-	verifAssume(!isKey) // valid keys: beyond the reflect shim
 	vm.Set("s", s)
-	switch verifChoose(3) {
+	switch verifChoose(4) {
+	case 3: // no property name denotes a key of this kind
+		isKey = false
+		vm.Set("m", map[interface{}]int{1: 2})
 	case 0:
 		vm.Set("m", map[int]string{1: "a"})
 	case 1:
@@ -267,6 +289,7 @@ func VerifH_C16_map_keys() {
 	default:
 		vm.Set("m", map[int64]bool{1: true})
 	}
+	verifAssume(!isKey) // valid keys: beyond the reflect shim
 	script := []string{"m[s]", "s in m", "delete m[s]", "var r = 'ok'; try { m[s] = 1 } catch (e) { r = e instanceof RangeError || e instanceof TypeError ? 'refused' : 'other' } r"}[verifChoose(4)]
 	verifLog(script)
 	var v Value
